@@ -33,7 +33,15 @@ Tie + search (this file), on the real code:
   * (props_ext/c07_history.py, in every run) the program built after the SAME (or a larger) program was built and
     materialized under ANOTHER configuration and kept alive: for every lazily read option (enumerated from the source),
     names and optimized graph keys must equal those of a build from clean registries and of a fresh process under the
-    same configuration.
+    same configuration;
+  * (props_ext/c07_layouts.py, in every run) SOURCE VARIANTS: one value (16 dtypes incl. bool, complex, datetime64, timedelta64,
+    str / bytes, structured, big-endian; 0-d to 4-d, zero-size; np.ma / matrix / recarray containers) in 28 memory representations
+    (C / Fortran order, permuted strides, transposed views, windows of bigger buffers, negative strides, strided, stride-0
+    broadcast, frombuffer / memoryview, layout-keeping copies, pickle / cloudpickle round trips) x writable / read-only /
+    read-only view, through every entry point that takes NumPy data (from_array and its keywords, asarray, asanyarray, array,
+    NumPy operands of ordinary calls): equal inputs must give equal names of the source and of derived programs (slice pushed
+    into the read, rechunk, elementwise, reduction, combination, transpose, ravel), equal optimized graph keys, Frisky keys and
+    values (NumPy oracle), in-process and when the INPUT is pickled to a fresh interpreter that rebuilds from it.
 """
 from __future__ import annotations
 
@@ -53,11 +61,17 @@ import numpy as np
 from harness import core, programs
 from harness.props import C06 as N
 from harness.props_ext import c07_history as H
+from harness.props_ext import c07_layouts as L
 from harness.props_ext import c07_sources as S
 
 
 def translate(ctx):
     N.translate(ctx)
+
+
+def layouts_child(payload):
+    """entry of the fresh interpreter of the source-variant stream (props_ext/fresh_process.py imports harness.props.C07)"""
+    return L.child(payload)
 
 
 # ------------------------------------------------------------------ DSL (sources with exceptions)
@@ -382,7 +396,11 @@ def run(ctx, replay=None):
         "(props_ext/c07_history.py): for every lazily read option (enumerated from the source) a program sensitive to it (tree reductions of "
         "every family over many blocks, many-block rechunks, chunks='auto', aligned multi-operand nodes) is built and materialized under "
         "configuration X and kept alive (or dropped), then rebuilt under Y: names, keys, chunks, dtype, optimized graph keys and values "
-        "must equal a build under Y from clean registries and in a fresh process"
+        "must equal a build under Y from clean registries and in a fresh process; PLUS source variants (props_ext/c07_layouts.py): "
+        "the grid of 12 core memory representations x writable / read-only / read-only view x 7 core entry points on a dtype and shape "
+        "rotating with the seed, every other representation and entry point with the read-only Fortran / permuted / negative-stride "
+        "variants, every dtype and shape class, np.ma / matrix / recarray containers, cross-process for read-only non-C variants, "
+        "random cases over the product; a case is distinct by (entry, representation, flag, container) and (dtype, rank)"
     )
     ctx.assumptions = [
         "dask.tokenize of NumPy data, tuples, ints, dtypes and module-level functions is a pure function of the value (trusted; exercised by the subprocess runs)",
@@ -396,7 +414,11 @@ def run(ctx, replay=None):
     ext_ids = set()
     light_ids = set()
     hist_cases = []
-    if replay is not None and replay.get("case", replay).get("kind") == "cfg-history":
+    layout_cases = []
+    if replay is not None and replay.get("case", replay).get("kind") == L.KIND:
+        layout_cases = [{k: v for k, v in replay.get("case", replay).items() if k not in ("oracle", "differences", "layouts")}]
+        progs = []
+    elif replay is not None and replay.get("case", replay).get("kind") == "cfg-history":
         hist_cases = [{k: v for k, v in replay.get("case", replay).items() if k not in ("oracle", "differences")}]
         progs = []
     elif replay is not None:
@@ -454,7 +476,12 @@ def run(ctx, replay=None):
         # ---- names / optimized graph keys after a HISTORY under another configuration (props_ext/c07_history.py): every
         #      lazily read option (enumerated from the source) on programs sensitive to it, in every run
         hist_cases = H.gen_cases(rng, ctx.scale(12, 200), rotate=ctx.seed)
+        # ---- equal NumPy inputs in different memory representations / writeability (props_ext/c07_layouts.py), in every run
+        layout_cases = L.gen_cases(rng, ctx.scale(30, 1500), rotate=ctx.seed)
 
+    if layout_cases:
+        # runs first: nothing else has been built in this process yet (its fresh interpreter is one more process, ~1 s)
+        layout_runner = L.run_stream(ctx, layout_cases, wait=False)
     reg = N.Registry(ctx, 0)  # only for `isolated` (emptied registries); the constructor hook is NOT installed
     items = []
     kept = []
@@ -504,6 +531,8 @@ def run(ctx, replay=None):
                         ctx.notes.setdefault("child_errors", []).append(str(r.get("error"))[:160])
                     continue
                 cross_process(ctx, by_id[int(sid)], r, seed, stats)
+    if layout_cases:
+        layout_runner.finish_fresh()
     ctx.notes["c07"] = dict(stats)
     ctx.notes["programs"] = len(progs)
     ctx.notes["programs_with_documented_exception_source"] = sum(has_exception(p) for p in progs)
